@@ -26,7 +26,7 @@ PROCS = max(1, int(os.environ.get("C17_PROCS", "6")))
 
 TIERS = {
     # (cfg, simulate, depth)
-    "quick": [("MCModules_q2.cfg", None, None), ("MCModules_q3.cfg", None, None)],
+    "quick": [("MCModules_q2.cfg", None, None), ("MCModules_q3.cfg", None, None), ("MCModules_q4slow.cfg", None, None)],
     "thorough": [("MCModules_t4a.cfg", None, None), ("MCModules_t4b.cfg", None, None),
                  ("MCModules_t5sync.cfg", None, None), ("MCModules_t2.cfg", None, None),
                  ("MCModules_q2.cfg", None, None), ("MCModules_q3.cfg", None, None),
@@ -91,8 +91,8 @@ def render_module(sc, m):
     L.append("x = 2;")
     if kind == "ap":
         L += [f'if (x === 2) throw "E{m}";', "await 0;"]
-    if kind in ("a", "at"):
-        L += ["await 0;", f'print({m}, "resume", 0, 0);'] + reads() + ["x = 3;"]
+    if kind in ("a", "at", "aw"):
+        L += ["await 0;"] * (3 if kind == "aw" else 1) + [f'print({m}, "resume", 0, 0);'] + reads() + ["x = 3;"]
     if kind in ("st", "at"):
         L.append(f'throw "E{m}";')
     return "\n".join(L) + "\n"
@@ -200,7 +200,7 @@ def nontrivial(sc):
                 reach[m].add(d)
                 todo += req[d - 1]
     cyclic = any(m in reach[m] for m in reach)
-    asyncm = any(k in ("a", "at", "ap") for k in sc["kind"])
+    asyncm = any(k in ("a", "at", "ap", "aw") for k in sc["kind"])
     thrower_with_dep = any(sc["kind"][t - 1] in ("st", "at", "ap") and any(t in req[m - 1] for m in range(1, n + 1))
                            for t in range(1, n + 1))
     return cyclic or asyncm or thrower_with_dep
@@ -208,7 +208,7 @@ def nontrivial(sc):
 
 # ------------------------------------------------------------------ reductions (shrinking)
 
-SIMPLER_KIND = {"s": [], "a": ["s"], "st": ["s"], "at": ["s", "a", "st"], "ap": ["s", "st", "a"]}
+SIMPLER_KIND = {"s": [], "a": ["s"], "st": ["s"], "at": ["s", "a", "st"], "ap": ["s", "st", "a"], "aw": ["s", "a"]}
 SIMPLER_BIND = {"named": [], "ns": ["named"], "reexp": ["named"], "nsreexp": ["named"]}
 
 
@@ -233,7 +233,7 @@ def renumber(n, req, kind, bind, script, root=1):
             "script": {"e1": mp[script["e1"]], "e2": mp[script["e2"]], "drain": script["drain"]}}
 
 
-KIND_RANK = {"s": 0, "a": 1, "st": 1, "at": 2, "ap": 2}
+KIND_RANK = {"s": 0, "a": 1, "st": 1, "at": 2, "ap": 2, "aw": 2}
 BIND_RANK = {"named": 0, "ns": 1, "reexp": 1, "nsreexp": 2}
 
 
